@@ -17,6 +17,44 @@ def n_of(tier, quick, thorough):
 
 
 # ------------------------------------------------------------------------------------------- C01
+def i8_edge_cases(rng, n):
+    """unit exponents at the edges of their i8 storage. The model's exponents are unbounded integers; the code must agree with it whenever
+    operands and RESULT fit into i8 (a well-dimensioned program) — a detour through a negation or a wider/narrower intermediate goes wrong
+    only at -128 / 127"""
+    E = [-128, -127, -126, -65, -64, -1, 0, 1, 63, 64, 126, 127]
+    L = []
+    def pair(op):
+        while True:
+            a = rng.choice(E) if rng.random() < 0.8 else rng.randint(-128, 127)
+            b = rng.choice(E) if rng.random() < 0.8 else rng.randint(-128, 127)
+            r = a + b if op.startswith("mul") else a - b
+            if -128 <= r <= 127:
+                return a, b
+    for _ in range(n):
+        op = rng.choice(["mul", "div", "mulas", "divas"])
+        (m1, m2), (s1, s2) = pair(op), pair(op)
+        L.append("q %s %s %s" % (op, q(rand_f(rng), m1, s1), q(rand_f(rng), m2, s2)))
+        L.append("q %s U:%d,%d U:%d,%d" % (op, m1, s1, m2, s2))
+        m, s_ = rng.choice(E), rng.choice(E)
+        L.append("q %s %s %s" % (rng.choice(["add", "sub", "cmp", "eq", "addas", "subas", "lt", "ge"]), q(rand_f(rng), m, s_), q(rand_f(rng), m, s_)))
+        L.append("q %s %s" % (rng.choice(["neg", "abs", "tof"]), q(rand_f(rng), m, s_)))
+    # every divisor/multiplier exponent edge against every dividend edge whose result fits
+    for a in E:
+        for b in E:
+            if -128 <= a - b <= 127:
+                L.append("q div %s %s" % (q(rand_f(rng), a, b), q(rand_f(rng), b, a) if -128 <= b - a <= 127 else q(rand_f(rng), b, b)))
+                L.append("q div U:%d,0 U:%d,0" % (a, b))
+                L.append("q div U:0,%d U:0,%d" % (a, b))
+            if -128 <= a + b <= 127:
+                L.append("q mul U:%d,0 U:%d,0" % (a, b))
+                L.append("q mul %s %s" % (q(rand_f(rng), a, 0), q(rand_f(rng), b, 0)))
+    return L
+
+
+INT_BOUNDS = sorted(set(x for k in (7, 8, 15, 16, 24, 31, 32, 53, 62, 63) for d in (-1, 0, 1) for x in (2 ** k + d, -(2 ** k) + d)
+                        if -(2 ** 63) <= x <= 2 ** 63 - 1))
+
+
 def gen_C01(rng, tier):
     L = []
     ops = ["add", "sub", "mul", "div", "addas", "subas", "mulas", "divas", "cmp", "eq"]
@@ -55,7 +93,8 @@ def gen_C01(rng, tier):
         for op in ["add", "sub", "mul", "div", "addas", "subas", "mulas", "divas"]:
             for _ in range(2):
                 t = rng.randint(-10 ** 13, 10 ** 13)
-                d = rng.randint(-10 ** 6, 10 ** 6)
+                # integers beyond 2^24 with low bits set are not f32 values: the operator must round them FIRST (`Quantity::from`)
+                d = rng.choice([rng.randint(-10 ** 6, 10 ** 6), strat_i64(rng), rng.choice([-1, 1]) * (2 ** rng.randint(24, 40) + rng.randint(1, 7))])
                 L.append("q %s %s T:%d" % (op, q(rand_f(rng), m, s), t))
                 L.append("q %s %s D:%d" % (op, q(rand_f(rng), m, s), d))
                 if not op.endswith("as"):
@@ -77,6 +116,7 @@ def gen_C01(rng, tier):
         op = rng.choice(ops)
         L.append("q %s %s %s" % (op, q(rand_f(rng), m1, s1), q(rand_f(rng), m2, s2)))
         L.append("q %s U:%d,%d U:%d,%d" % (rng.choice(["add", "sub", "mul", "div", "mulas", "divas"]), m1, s1, m2, s2))
+    L += i8_edge_cases(rng, n_of(tier, 300, 2000))
     # special float values: bit-level comparison only
     for a in SPECIAL_F:
         for b in SPECIAL_F:
@@ -395,8 +435,25 @@ def gen_C18(rng, tier):
         L.append("q %s T:%d D:%d" % (op, a, b))
         L.append("q %s D:%d T:%d" % (rng.choice(["mul", "div"]), b, a))
         L.append("q neg %s:%d" % (ty, a))
+    # the boundaries of the narrower integer and float-mantissa types (2^7 .. 2^63, each -1/0/+1) against the small operands at which a
+    # "fast path" through a narrower type overflows or truncates (MIN / -1, MAX + 1, ...) — every operator form, both operand orders
+    small = [-1, 1, 0, 2, -2, 3, 10]
+    for a in INT_BOUNDS:
+        for b in small + rng.sample(INT_BOUNDS, 6):
+            for op in ("add", "sub", "addas", "subas"):
+                ty = rng.choice("TD")
+                L.append("q %s %s:%d %s:%d" % (op, ty, a, ty, b))
+            for op in ("mul", "div", "mulas", "divas"):
+                L.append("q %s T:%d D:%d" % (op, a, b))
+                L.append("q %s D:%d D:%d" % (op, a, b))
+                if rng.random() < 0.3:
+                    L.append("q %s T:%d D:%d" % (op, b, a))
+            L.append("q div D:%d T:%d" % (a, b))
+            L.append("q mul D:%d T:%d" % (b, a))
+        L.append("q neg T:%d" % a)
+        L.append("q neg D:%d" % a)
     # conversions
-    ts = sorted(set(strat_i64(rng) for _ in range(n_of(tier, 4000, 40000))))
+    ts = sorted(set([strat_i64(rng) for _ in range(n_of(tier, 4000, 40000))] + INT_BOUNDS))
     for t in ts:
         L.append("q toq T:%d" % t)
         L.append("q toq D:%d" % t)
@@ -1848,6 +1905,7 @@ def gen_C19(rng, tier):
     L = []
     L += subsample(rng, gen_C01(rng, "quick"), 4 * n)
     L += subsample(rng, gen_C18(rng, "quick"), 2 * n)
+    L += i8_edge_cases(rng, 150)
     L += subsample(rng, gen_C14(rng, "quick"), 2 * n)
     L += subsample(rng, gen_C03(rng, "quick"), n)
     L += subsample(rng, gen_C02(rng, "quick"), n)
